@@ -134,6 +134,22 @@ SEEDS3 = {
     "C16-6": ("C16", ["C16", "C04"], "witness read cache refreshed at two of the three store sites (not the size-0 branch)", "first accepted update at size 0, a second accepted size-0 update with different bytes, then a GET"),
     "C19-5": ("C19", ["C19"], "rekor feeder: merged shard structs with []*shardInfo; a JSON null element in inactiveShards is dereferenced", "a 200 JSON reply whose inactiveShards contains a literal null and no earlier shard matches the treeID"),
     "C19-6": ("C19", ["C19", "C14"], "feeder.Run returns the (shadowed per-cycle) context error when a cycle times out, ending the feeder and, through Main's errgroup, the service", "continuous mode and a failure inside the retry loop that lasts a whole interval (e.g. a fork)"),
+    "C04-5": ("C04", ["C04", "C08"], "witness.parse rewrites the note text with cp.Marshal()+extensions before cosigning ('cosign exactly what was checked')", "an accepted checkpoint spelt non-canonically (leading-zero size, base64 with non-zero padding bits)"),
+    "C04-6": ("C04", ["C07", "C04", "C03"], "sql: Set only marks dirty, Close commits; Update discards Close's result, so a failed COMMIT is reported as acceptance", "SQL storage and a COMMIT that fails after a good INSERT"),
+    "C11-5": ("C11", ["C11", "C19"], "parseBody keeps bufio.ReadLine slices across later reads (readHeader helper)", "old line + proof lines beyond 4096 bytes, or a header delivered in several reads"),
+    "C11-6": ("C11", ["C11", "C10"], "parseBody wraps the input in io.LimitReader(1 MiB): a larger body loses its tail silently", "a body larger than 1,048,576 bytes"),
+    "C12-5": ("C12", ["C12", "C05"], "inmemory: per-log compare-and-swap replaced by one store-wide write counter", "in-memory store and two overlapping updates for DIFFERENT logs"),
+    "C12-6": ("C12", ["C12", "C10"], "bastion ServeHTTP takes the origin line with bufio.ReadLine (truncates at 4096 bytes, isPrefix dropped)", "a request through the bastion endpoint for a log whose origin is longer than 4096 bytes"),
+    "C14-5": ("C14", ["C14", "C18"], "client.tilePath loop 'offset > pathBase': tile index exactly 1000 rendered as 000", "a sumdb log already witnessed whose new size lies in 256001..256255 (proof needs level-0 tile 1000)"),
+    "C14-6": ("C14", ["C14"], "tiles feeder caches the ProofBuilder while to.Size is unchanged (root not compared)", "witness at M; the log serves a fork at N > M (rejected), then its honest history at exactly N, no restart in between"),
+    "C15-5": ("C15", ["C15"], "distributor URL built with path.Join on the unescaped witness name", "a witness key name containing '/' (or '.', '..')"),
+    "C15-6": ("C15", ["C15"], "DistributeOnce returns at once when a per-log error matches context.Canceled/DeadlineExceeded (errors now wrapped with %w)", "a client/transport timeout on a log that is not the last of two or more"),
+    "C17-5": ("C17", ["C17"], "Main decodes the embedded config with yaml KnownFields(true); the shipped PublicKeyType keys are unknown fields", "running omniwitness.Main itself"),
+    "C17-6": ("C17", ["C17"], "rekor feeder: apiRoot() aliases the parsed URL and clears RawQuery before treeID is read", "the real rekor.FeedLog invoked on a shipped Rekor entry"),
+    "C18-5": ("C18", ["C18", "C13"], "sumdb fetchProof memoises the last proof keyed by the target only (not by from)", "within one FeedLog call: a proof A->T refused, then the witness at B != A while the log is still at T"),
+    "C18-6": ("C18", ["C18"], "HTTPFetcher.GetData resolves the path with URL.ResolveReference (drops a path prefix of the configured URL)", "a SumDB mounted under a path prefix"),
+    "C20-5": ("C20", ["C20"], "cosignAndStore helper: defer counterUpdateSuccess.Inc registered before write.Set", "Set fails after all checks passed (lost in-memory CAS race or a storage fault at Set)"),
+    "C20-6": ("C20", ["C20", "C09"], "new pre-check len(proof) > 63 returns ErrInvalidProof without counting, placed before the root comparison", "old = stored size and a proof of 64 or more lines"),
 }
 SEEDS2.update(SEEDS3)
 SRC = {}
